@@ -91,7 +91,7 @@ Qed.
 
 Lemma start_step0_acts now s iv dr nid lg : acts now dr (snd (fst (fst (start_step0 now s iv dr nid lg)))).
 Proof.
-  destruct s as [d|t|d v|biased a b|p b| | |polled d1 d2|d| |ch d|ch|d ch|rf ch d|rearm d0 d2 x d3]; cbn [start_step0]; try apply acts_refl.
+  destruct s as [d|t|d v|biased a b|p b| | |polled d1 d2|d| |ch d|ch|d ch|rf ch d|rearm d0 d2 x d3|wf d]; cbn [start_step0]; try apply acts_refl.
   - destruct v; apply acts_refl.
   - apply iv_drop_acts.
   - apply iv_drop_acts.
@@ -112,12 +112,14 @@ Proof.
     pose proof (sleep_reset_acts now s1 (dl now d2) dr1) as H2.
     destruct (sleep_reset s1 (dl now d2) dr1) as [s2 dr2]. cbn [fst snd] in *.
     exact (acts_trans _ _ _ _ H1 H2).
+  - pose proof (sleep_poll_acts now (sleep_new (dl now d) nid) dr) as H.
+    destruct (sleep_poll now (sleep_new (dl now d) nid) dr) as [[r s1] dr1]. cbn [fst snd] in *. exact H.
 Qed.
 
 Lemma start_step_acts now m k s iv dr nid lg mail :
   acts now dr (snd (fst (fst (fst (start_step now m k s iv dr nid lg mail))))).
 Proof.
-  destruct s as [d|t|d v|biased a b|p b| | |polled d1 d2|d| |ch d|ch|d ch|rf ch d|rearm d0 d2 x d3]; cbn [start_step fst]; try apply start_step0_acts.
+  destruct s as [d|t|d v|biased a b|p b| | |polled d1 d2|d| |ch d|ch|d ch|rf ch d|rearm d0 d2 x d3|wf d0]; cbn [start_step fst]; try apply start_step0_acts.
   pose proof (sleep_poll_acts now (sleep_new (now + d) nid) dr) as H.
   destruct (sleep_poll now (sleep_new (now + d) nid) dr) as [[r s1] dr1]. cbn [fst snd] in *. exact H.
 Qed.
